@@ -211,6 +211,8 @@ fn source_block_encoding_plan_cache() -> &'static Mutex<SourceBlockEncodingPlanC
 
 #[cfg(feature = "std")]
 fn get_or_generate_source_block_encoding_plan(symbol_count: u16) -> Arc<SourceBlockEncodingPlan> {
+    #[cfg(feature = "verif_hooks")]
+    verif_cache::yield_point(symbol_count, 0);
     {
         let cache = source_block_encoding_plan_cache();
         let guard = cache
@@ -221,7 +223,11 @@ fn get_or_generate_source_block_encoding_plan(symbol_count: u16) -> Arc<SourceBl
         }
     }
 
+    #[cfg(feature = "verif_hooks")]
+    verif_cache::yield_point(symbol_count, 1);
     let generated = Arc::new(SourceBlockEncodingPlan::generate(symbol_count));
+    #[cfg(feature = "verif_hooks")]
+    verif_cache::yield_point(symbol_count, 2);
     let cache = source_block_encoding_plan_cache();
     let mut guard = cache
         .lock()
@@ -484,6 +490,125 @@ fn enc_into(
             b1 = (b1 + a1) % p1;
         }
         add_assign(dest, intermediate_symbols.get((w + b1) as usize));
+    }
+}
+
+// Verification hooks: observation of the process-wide plan cache and of encoder internals.
+#[cfg(feature = "verif_hooks")]
+pub mod verif_cache {
+    use super::*;
+    use std::sync::RwLock;
+
+    type YieldFn = Box<dyn Fn(u16, u8) + Send + Sync>;
+    static YIELD: RwLock<Option<YieldFn>> = RwLock::new(None);
+
+    // Called at: 0 = before the lookup critical section, 1 = after a miss (before generating),
+    // 2 = after generating (before the insert critical section).
+    pub(super) fn yield_point(symbol_count: u16, phase: u8) {
+        if let Some(f) = YIELD.read().unwrap().as_ref() {
+            f(symbol_count, phase);
+        }
+    }
+
+    pub fn set_yield(f: Option<YieldFn>) {
+        *YIELD.write().unwrap() = f;
+    }
+
+    pub const CAPACITY: usize = SOURCE_BLOCK_ENCODING_PLAN_CACHE_CAPACITY;
+
+    // (keys of the map, sorted; FIFO queue front to back; per key the plan's own symbol count)
+    pub fn snapshot() -> (Vec<u16>, Vec<u16>, Vec<(u16, u16)>) {
+        let guard = source_block_encoding_plan_cache()
+            .lock()
+            .unwrap_or_else(|poisoned| poisoned.into_inner());
+        let mut keys: Vec<u16> = guard.plans.keys().copied().collect();
+        keys.sort_unstable();
+        let order: Vec<u16> = guard.insertion_order.iter().copied().collect();
+        let mut counts: Vec<(u16, u16)> = guard
+            .plans
+            .iter()
+            .map(|(k, p)| (*k, p.source_symbol_count))
+            .collect();
+        counts.sort_unstable();
+        (keys, order, counts)
+    }
+
+    pub fn cached_plan(symbol_count: u16) -> Option<SourceBlockEncodingPlan> {
+        let guard = source_block_encoding_plan_cache()
+            .lock()
+            .unwrap_or_else(|poisoned| poisoned.into_inner());
+        guard.plans.get(&symbol_count).map(|p| (**p).clone())
+    }
+
+    pub fn clear() {
+        let mut guard = source_block_encoding_plan_cache()
+            .lock()
+            .unwrap_or_else(|poisoned| poisoned.into_inner());
+        guard.plans.clear();
+        guard.insertion_order.clear();
+    }
+
+    pub fn get_or_generate(symbol_count: u16) -> SourceBlockEncodingPlan {
+        (*get_or_generate_source_block_encoding_plan(symbol_count)).clone()
+    }
+}
+
+#[cfg(feature = "verif_hooks")]
+impl SourceBlockEncodingPlan {
+    pub fn verif_operations(&self) -> &[SymbolOps] {
+        &self.operations
+    }
+
+    pub fn verif_source_symbol_count(&self) -> u16 {
+        self.source_symbol_count
+    }
+
+    pub fn verif_from_parts(operations: Vec<SymbolOps>, source_symbol_count: u16) -> Self {
+        SourceBlockEncodingPlan {
+            operations,
+            source_symbol_count,
+        }
+    }
+
+    // Plan generation with an explicit sparse threshold (the public `generate` uses the default).
+    pub fn verif_generate(symbol_count: u16, sparse_threshold: u32) -> Option<Self> {
+        let symbols = vec![Symbol::new(vec![0]); symbol_count as usize];
+        let (_, ops) = gen_intermediate_symbols(&symbols, 1, sparse_threshold);
+        ops.map(|operations| SourceBlockEncodingPlan {
+            operations,
+            source_symbol_count: symbol_count,
+        })
+    }
+}
+
+#[cfg(feature = "verif_hooks")]
+impl SourceBlockEncoder {
+    // Intermediate symbols C[0..L), in logical order.
+    pub fn verif_intermediate_symbols(&self) -> Vec<Vec<u8>> {
+        let l = num_intermediate_symbols(self.source_symbols.len() as u32) as usize;
+        (0..l)
+            .map(|i| self.intermediate_symbols.get(i).to_vec())
+            .collect()
+    }
+
+    // Direct solve: no plan, no cache. None when the solver reports failure.
+    pub fn verif_new_unplanned(
+        source_block_id: u8,
+        config: &ObjectTransmissionInformation,
+        data: &[u8],
+        sparse_threshold: u32,
+    ) -> Option<SourceBlockEncoder> {
+        let source_symbols = SourceBlockEncoder::create_symbols(config, data);
+        let (intermediate_symbols, _) = gen_intermediate_symbols(
+            &source_symbols,
+            config.symbol_size() as usize,
+            sparse_threshold,
+        );
+        intermediate_symbols.map(|intermediate_symbols| SourceBlockEncoder {
+            source_block_id,
+            source_symbols,
+            intermediate_symbols,
+        })
     }
 }
 
